@@ -638,18 +638,20 @@ class RealOA:
 
     def __init__(self, lib, kind):
         self.lib, self.kind = lib, kind
-        tm = lib.detached()
-        self.t = tm.add_trigger("oa")
+        self.n = 0
         self.reset()
 
     def lst(self):
         return self.t.effects if self.kind == "e" else self.t.conditions
 
     def reset(self):
-        if self.kind == "e":
-            self.t.effects = []
-        else:
-            self.t.conditions = []
+        # a FRESH trigger per case: re-using one trigger through `t.effects = []` leaves its `_effect_hash` stale
+        # (the setter does not refresh it) and the id()-based hash of a new effect allocated at a freed effect's address
+        # then collides - that is the "ideal hash" assumption of DESIGN 3, not part of C07 (see design.d/C07.md)
+        if self.n % 500 == 0:
+            self.tm = self.lib.detached()
+        self.n += 1
+        self.t = self.tm.add_trigger("oa")
         self.ren, self.keep = {}, []
 
     def execute(self, cmd):
